@@ -2,6 +2,7 @@ package checks
 
 import (
 	"context"
+	"errors"
 	"fmt"
 	"net"
 	"time"
@@ -26,15 +27,71 @@ import (
 type streamPeer struct {
 	protobufcompiled.UnimplementedGossipAPIServer
 	stream []*accountant.Vertex
+	// failAfter >= 0: the peer's call fails after that many vertices were sent; badAt >= 0: the vertex at that position
+	// goes out as a wire vertex the receiving side cannot accept (its hash is cut short)
+	failAfter, badAt int
 }
 
 func (p *streamPeer) LoadDag(_ *emptypb.Empty, stream protobufcompiled.GossipAPI_LoadDagServer) error {
-	for _, v := range p.stream {
-		if err := stream.Send(gossip.VerifVertexToProtoVertex(v)); err != nil {
+	for i, v := range p.stream {
+		if p.failAfter >= 0 && i == p.failAfter {
+			return errors.New("the peer gave up in the middle of the stream")
+		}
+		pv := gossip.VerifVertexToProtoVertex(v)
+		if p.badAt >= 0 && i == p.badAt {
+			pv.Hash = pv.Hash[:7]
+		}
+		if err := stream.Send(pv); err != nil {
 			return err
 		}
 	}
+	if p.failAfter >= len(p.stream) {
+		return errors.New("the peer failed at the end of the stream")
+	}
 	return nil
+}
+
+// syncJoiner starts a fresh node and lets it sync through the real client from a peer configured as given. It returns the
+// joiner's ledger (still open), whether the sync call returned within 30 s, and a function that releases everything.
+func syncJoiner(p *streamPeer) (book *accountant.AccountingBook, returned bool, release func()) {
+	lis := bufconn.Listen(1 << 22)
+	srv := grpc.NewServer()
+	protobufcompiled.RegisterGossipAPIServer(srv, p)
+	go srv.Serve(lis)
+	a := ledger.NewActor("joiner")
+	ctx, cancel := context.WithCancel(context.Background())
+	book, err := accountant.NewAccountingBook(ctx, accountant.Config{Truncate: 1 << 50}, wallet.NewVerifier(), &a.W, ledger.NoLog{})
+	if err != nil {
+		cancel()
+		srv.Stop()
+		return nil, false, func() {}
+	}
+	fl, _ := cache.NewFlash()
+	hc, _ := cache.New(800, 64)
+	g := gossip.VerifNewGossiper("joiner", ledger.NoLog{}, time.Second, &a.W, wallet.NewVerifier(), book, hc, fl, pipe.New(10, 10),
+		[]grpc.DialOption{grpc.WithTransportCredentials(insecure.NewCredentials()), grpc.WithContextDialer(func(ctx context.Context, s string) (net.Conn, error) { return lis.DialContext(ctx) })})
+	done := make(chan struct{})
+	go func() {
+		defer close(done)
+		defer func() { recover() }()
+		g.UpdateDag(ctx, "passthrough:///bufnet")
+	}()
+	select {
+	case <-done:
+		returned = true
+	case <-time.After(30 * time.Second):
+	}
+	return book, returned, func() {
+		srv.Stop()
+		cancel()
+		go book.VerifClose() // (never wait for a possibly wedged ledger)
+		if fl != nil {
+			fl.Close()
+		}
+		if hc != nil {
+			hc.Close()
+		}
+	}
 }
 
 // syncOverTransport lets a fresh node sync through the real client side of the gossip service (dial, LoadDag stream,
@@ -42,7 +99,7 @@ func (p *streamPeer) LoadDag(_ *emptypb.Empty, stream protobufcompiled.GossipAPI
 func syncOverTransport(st []*accountant.Vertex) (snap *ledger.Snap, loaded bool, panicked any, ok bool) {
 	lis := bufconn.Listen(1 << 22)
 	srv := grpc.NewServer()
-	protobufcompiled.RegisterGossipAPIServer(srv, &streamPeer{stream: st})
+	protobufcompiled.RegisterGossipAPIServer(srv, &streamPeer{stream: st, failAfter: -1, badAt: -1})
 	go srv.Serve(lis)
 	defer srv.Stop()
 	a := ledger.NewActor("joiner")
